@@ -364,7 +364,7 @@ func parse_at(tokens []*Token, token_index int) (*AstLoop, int, error) {
 			loopName = nameToken.Lexeme
 			current_index += 1
 		} else {
-			return nil, current_index, parseError
+			return nil, current_index, NewParseError(current_token, "Expected identifier following keyword 'named'")
 		}
 	}
 
@@ -474,7 +474,7 @@ func parse_exactly(tokens []*Token, token_index int) (*AstLoop, int, error) {
 	}
 
 	loopName := ""
-	current_index = consumeIgnoreableTokens(tokens, current_index)
+	current_index = consumeIgnoreableTokens(tokens, next_index)
 	current_token = tokens[current_index]
 	if current_token.TokenType == NAMED {
 		current_index = consumeIgnoreableTokens(tokens, current_index+1)
@@ -483,7 +483,7 @@ func parse_exactly(tokens []*Token, token_index int) (*AstLoop, int, error) {
 			loopName = nameToken.Lexeme
 			current_index += 1
 		} else {
-			return nil, current_index, parseError
+			return nil, current_index, NewParseError(current_token, "Expected identifier following keyword 'named'")
 		}
 	}
 
@@ -495,7 +495,7 @@ func parse_exactly(tokens []*Token, token_index int) (*AstLoop, int, error) {
 		Name:   loopName,
 	}
 
-	return &exactly, next_index, nil
+	return &exactly, current_index, nil
 }
 
 func parse_maybe(tokens []*Token, token_index int) (*AstLoop, int, error) {
